@@ -51,6 +51,21 @@ func runQuery(tbl statedb.Table[*Obj], txn statedb.ReadTxn, q Query) ([]item, <-
 	panic("bad query kind")
 }
 
+// lazyQuery returns the unconsumed iterator of a sequence query (nil for Get).
+func lazyQuery(tbl statedb.Table[*Obj], txn statedb.ReadTxn, q Query) iter.Seq2[*Obj, statedb.Revision] {
+	switch q.Kind {
+	case qList:
+		return tbl.List(txn, q.sdbQuery())
+	case qPrefix:
+		return tbl.Prefix(txn, q.sdbQuery())
+	case qLowerBound:
+		return tbl.LowerBound(txn, q.sdbQuery())
+	case qAll:
+		return tbl.All(txn)
+	}
+	return nil
+}
+
 // runQueryAny executes the same query through AnyTable's string interface.
 func runQueryAny(tbl statedb.Table[*Obj], txn statedb.ReadTxn, q Query) ([]item, error) {
 	at := statedb.AnyTable{Meta: tbl}
